@@ -11,6 +11,7 @@ import (
 	"net/http/httptest"
 	"os"
 	"path"
+	"path/filepath"
 	"strings"
 	"time"
 
@@ -61,47 +62,90 @@ func cmdAPIAuth(args []string) error {
 		out.WriteByte('\n')
 	}
 	r := newRng(*seed)
+	dir, err := scratchDir()
+	if err != nil {
+		return err
+	}
+	defer os.RemoveAll(dir)
 	clock := &fakeClock{now: 1_700_000_000_000_000_000}
 	tokPool := []string{"tokA", "tokB", "tok", "secret-token-1", "T0k3n", "abc", "abcd"}
 
 	for c := 0; c < *nc; c++ {
-		var b strings.Builder
-		var global, admin []string
-		ng := pick(r, []int{0, 0, 1, 1, 2})
-		b.WriteString("pull_api {\n")
-		for i := 0; i < ng; i++ {
-			t := pick(r, tokPool) + fmt.Sprintf("g%d", i)
-			global = append(global, t)
-			fmt.Fprintf(&b, "  auth token raw:%s\n", t)
-		}
-		b.WriteString("}\n")
-		na := pick(r, []int{0, 1, 2})
-		b.WriteString("admin_api {\n")
-		for i := 0; i < na; i++ {
-			t := pick(r, tokPool) + fmt.Sprintf("adm%d", i)
-			admin = append(admin, t)
-			fmt.Fprintf(&b, "  auth token raw:%s\n", t)
-		}
-		b.WriteString("}\n")
+		// one route layout, tokens drawn per configuration: B is the configuration in force when the requests arrive; in a
+		// third of the cases the process was started with another token set A (same layout) and reloaded to B
 		nr := 1 + r.intn(3)
-		var routes []jpullroute
-		for i := 0; i < nr; i++ {
-			jr := jpullroute{Route: fmt.Sprintf("/r%d", i), Endpoint: fmt.Sprintf("/pull/p%d", i), Tokens: []string{}}
-			if i == 1 && r.chance(40) {
-				jr.Endpoint = "/pull/p0/sub" // nested endpoint
+		nested := r.chance(40)
+		envN := 0
+		tokenRef := func(b *strings.Builder, indent, t string) string {
+			// how the token is configured, and the value it is expected to load as
+			switch r.weighted([]int{70, 20, 10}) {
+			case 1:
+				envN++
+				name := fmt.Sprintf("HK_VERIF_TOK_%d_%d", c, envN)
+				val := t
+				switch r.weighted([]int{65, 20, 15}) {
+				case 1:
+					val = pick(r, []string{" ", "  ", "\t", " \n"}) // set, but blank: nobody can present it
+				case 2:
+					val = " " + t + " " // not trimmed: the configured token is the padded value, which no header can carry
+				}
+				os.Setenv(name, val)
+				fmt.Fprintf(b, "%sauth token env:%s\n", indent, name)
+				return val
+			case 2:
+				envN++
+				fp := filepath.Join(dir, fmt.Sprintf("tok_%d_%d", c, envN))
+				_ = os.WriteFile(fp, []byte(pick(r, []string{"", " ", "\n"})+t+pick(r, []string{"", "\n", " \n"})), 0o600)
+				fmt.Fprintf(b, "%sauth token file:%s\n", indent, fp)
+				return t // file contents are trimmed
 			}
-			fmt.Fprintf(&b, "%s {\n  pull {\n    path %s\n", jr.Route, jr.Endpoint)
-			nt := pick(r, []int{0, 0, 1, 2})
-			for k := 0; k < nt; k++ {
-				t := pick(r, tokPool) + fmt.Sprintf("r%d_%d", i, k)
-				jr.Tokens = append(jr.Tokens, t)
-				fmt.Fprintf(&b, "    auth token raw:%s\n", t)
-			}
-			b.WriteString("  }\n}\n")
-			routes = append(routes, jr)
+			fmt.Fprintf(b, "%sauth token raw:%s\n", indent, t)
+			return t
 		}
-		text := b.String()
-		base := map[string]interface{}{"global": global, "routes": routes, "admin": admin, "cfg": c}
+		type apiCfg struct {
+			text          string
+			global, admin []string
+			routes        []jpullroute
+		}
+		genCfg := func(tag string) apiCfg {
+			var b strings.Builder
+			var a apiCfg
+			ng := pick(r, []int{0, 0, 1, 1, 2})
+			b.WriteString("pull_api {\n")
+			for i := 0; i < ng; i++ {
+				a.global = append(a.global, tokenRef(&b, "  ", pick(r, tokPool)+fmt.Sprintf("%sg%d", tag, i)))
+			}
+			b.WriteString("}\n")
+			na := pick(r, []int{0, 1, 2})
+			b.WriteString("admin_api {\n")
+			for i := 0; i < na; i++ {
+				a.admin = append(a.admin, tokenRef(&b, "  ", pick(r, tokPool)+fmt.Sprintf("%sadm%d", tag, i)))
+			}
+			b.WriteString("}\n")
+			for i := 0; i < nr; i++ {
+				jr := jpullroute{Route: fmt.Sprintf("/r%d", i), Endpoint: fmt.Sprintf("/pull/p%d", i), Tokens: []string{}}
+				if i == 1 && nested {
+					jr.Endpoint = "/pull/p0/sub" // nested endpoint
+				}
+				fmt.Fprintf(&b, "%s {\n  pull {\n    path %s\n", jr.Route, jr.Endpoint)
+				nt := pick(r, []int{0, 0, 1, 2})
+				for k := 0; k < nt; k++ {
+					jr.Tokens = append(jr.Tokens, tokenRef(&b, "    ", pick(r, tokPool)+fmt.Sprintf("%sr%d_%d", tag, i, k)))
+				}
+				b.WriteString("  }\n}\n")
+				a.routes = append(a.routes, jr)
+			}
+			a.text = b.String()
+			return a
+		}
+		var old *apiCfg
+		if r.chance(35) {
+			a := genCfg("old")
+			old = &a
+		}
+		cur := genCfg("")
+		text, global, admin, routes := cur.text, cur.global, cur.admin, cur.routes
+		base := map[string]interface{}{"global": global, "routes": routes, "admin": admin, "cfg": c, "reloaded": old != nil}
 		if global == nil {
 			base["global"] = []string{}
 		}
@@ -122,14 +166,45 @@ func cmdAPIAuth(args []string) error {
 		if !res.OK {
 			continue
 		}
-		rt, err := app.VerifNewRuntime(compiled, clock.Now)
-		if err != nil {
-			emit(map[string]interface{}{"k": "cfgerror", "stage": "runtime", "err": err.Error(), "text": text})
-			continue
+		var rt *app.VerifRuntime
+		if old != nil {
+			oldCompiled, err := compileText(old.text)
+			if err != nil {
+				continue
+			}
+			rt, err = app.VerifNewRuntime(oldCompiled, clock.Now)
+			if err != nil {
+				continue // a token of the old configuration does not load
+			}
+			cfgPath := filepath.Join(dir, fmt.Sprintf("Hookaidofile.%d", c))
+			_ = os.WriteFile(cfgPath, []byte(text), 0o600)
+			if !rt.Reload(cfgPath) {
+				// refused (a token of the new configuration does not load, or a restart is required): nothing to judge against B
+				emit(map[string]interface{}{"k": "cfgerror", "stage": "reload", "err": "reload refused", "text": text})
+				continue
+			}
+		} else {
+			rt, err = app.VerifNewRuntime(compiled, clock.Now)
+			if err != nil {
+				emit(map[string]interface{}{"k": "cfgerror", "stage": "runtime", "err": err.Error(), "text": text})
+				continue
+			}
 		}
 		allTokens := append(append([]string{}, global...), admin...)
 		for _, jr := range routes {
 			allTokens = append(allTokens, jr.Tokens...)
+		}
+		if old != nil {
+			// the retired tokens are presented too
+			allTokens = append(append(allTokens, old.global...), old.admin...)
+			for _, jr := range old.routes {
+				allTokens = append(allTokens, jr.Tokens...)
+			}
+		}
+		for i, t := range allTokens {
+			if strings.TrimSpace(t) == "" {
+				allTokens[i] = "x" // a blank configured token cannot be put into a header
+			}
 		}
 		mutate := func(t string) string {
 			switch r.intn(8) {
@@ -158,6 +233,9 @@ func cmdAPIAuth(args []string) error {
 			t := pick(r, allTokens)
 			if len(pref) > 0 && r.chance(60) {
 				t = pick(r, pref) // a token that governs the addressed endpoint
+				if strings.TrimSpace(t) == "" {
+					t = "x"
+				}
 			}
 			switch r.weighted([]int{45, 20, 6, 6, 5, 5, 5, 4, 4}) {
 			case 0:
@@ -187,10 +265,17 @@ func cmdAPIAuth(args []string) error {
 			before := snapKey(store)
 			switch r.weighted([]int{55, 30, 15}) {
 			case 0: // Pull API over HTTP
-				jr := pick(r, routes)
+				ri := r.intn(len(routes))
+				jr := routes[ri]
 				pref = jr.Tokens
 				if len(pref) == 0 {
 					pref = global
+				}
+				if old != nil && r.chance(35) {
+					pref = old.routes[ri].Tokens // what governed this endpoint before the reload
+					if len(pref) == 0 {
+						pref = old.global
+					}
 				}
 				op := pick(r, []string{"dequeue", "dequeue", "ack", "nack", "extend", "bogus"})
 				raw := jr.Endpoint + "/" + op
@@ -223,10 +308,17 @@ func cmdAPIAuth(args []string) error {
 				}
 				emit(rec)
 			case 1: // Worker API (gRPC handlers, metadata in the context)
-				jr := pick(r, routes)
+				ri := r.intn(len(routes))
+				jr := routes[ri]
 				pref = jr.Tokens
 				if len(pref) == 0 {
 					pref = global
+				}
+				if old != nil && r.chance(35) {
+					pref = old.routes[ri].Tokens
+					if len(pref) == 0 {
+						pref = old.global
+					}
 				}
 				ep := jr.Endpoint
 				if r.chance(10) {
